@@ -151,6 +151,20 @@ CHECKS.update({
              "the stochastic cost is not covered; N <= 4, M <= 3, T <= 3, p <= 3."),
 })
 
+
+CHECKS.update({
+    "C19": dict(level="model_checking", design="3/C19",
+        text="The three volume splitters and binom_rnd_f are executed over symbolic mother counts, volumes, noise and uniforms: "
+             "conservation / duplication per partition mode, binomial counts = number of the molecule's own draws below "
+             "p = V_d/V, volume conservation, daughters' time, mother untouched. One inductive step of "
+             "LineageSSASimulator.SimulateSingleCell with an abstract lineage interface (reactions, volume/division/death events, "
+             "rules with arbitrary outcomes) plus its truncation/exit code: every row carries the rule-updated state and a positive "
+             "volume, zero total propensity samples nothing, traces have equal non-zero length; an end-to-end symbolic run through "
+             "the real entry point and LineageCSimInterface.",
+        note="Mother/daughter bookkeeping across cells is exercised on the real build by replay scenarios only; counts <= 3; "
+             "interacting lineages, turbidostat and custom splitters are outside the claim."),
+})
+
 NOT_YET = "check not built yet in this revision of /verif (work in progress; see DESIGN.md section 3 for the planned obligations)"
 
 
